@@ -247,9 +247,14 @@ func VpHInMemoryNoFiles() {
 	vpAssert(db.opt.SyncWrites == false && db.manifest.inMemory, "C37:inmem.options")
 
 	// one write request through the real write path, then the real flush of that memtable
+	// the value threshold is arbitrary, subject to what Txn.modify admits in InMemory mode: a value
+	// up to AND INCLUDING the threshold length (17 bytes here)
+	thr := vpU64("valueThreshold")
+	vpAssume(vpAnd(thr >= 17, thr <= 1<<20))
 	db.threshold = &vlogThreshold{}
-	db.threshold.valueThreshold.Store(db.opt.ValueThreshold)
+	db.threshold.valueThreshold.Store(int64(thr))
 	vpStub("(*badger.vlogThreshold).update", func(v *vlogThreshold, sizes []int64) {})
+	vpPanicID("C37,C28:inmem.write-of-an-admitted-value-does-not-panic")
 	// the entry carries arbitrary meta bits (delete, discard-earlier-versions, merge entry, txn),
 	// user meta and expiry: what reaches the memtable must be what an on-disk database would store
 	// for an inline value (the same meta apart from the value-pointer bit, same value, user meta,
